@@ -234,7 +234,7 @@ class Run:
         """the harness' CONFORMANCE list (function name, argument list), read in a native subprocess"""
         code = ("import sys, json, os; sys.path.insert(0, %r); os.environ['VERIF_NATIVE']='1'; os.environ['VERIF_CONFORM']='1'\n"
                 "from engine import native\nm = native.load(%r)\n"
-                "from engine.chrun import jsonable\nprint('ITEMS=' + json.dumps([[f, jsonable(list(a))] for f, a in getattr(m, 'CONFORMANCE', [])]))" % (ROOT, hp))
+                "from engine.chrun import jsonable\nprint('ITEMS=' + json.dumps([[it[0], jsonable(list(it[1]))] for it in getattr(m, 'CONFORMANCE', [])]))" % (ROOT, hp))
         p = subprocess.run([PY, "-c", code], capture_output=True, text=True, cwd=ROOT, env=_env({"VERIF_NATIVE": "1", "VERIF_CONFORM": "1", **(henv or {})}), timeout=600)
         r = _tagged(p.stdout, "ITEMS")
         return r or []
